@@ -906,7 +906,7 @@ def c18_u1(ctx):
             yield bad("C18-U1", key, at(f, line), "%s reachable in unacknowledged mode without a mode test or enabled-state guard: chain %s; state %s" % (what, chain, world_str(wbad) if wbad is not None else "?"))
 
 
-@rule("C18", "C18-U2", 1, "the sender does not shut down on sending EOF in unacknowledged mode when closure was requested", also=("C10",))
+@rule("C18", "C18-U2", 1, "the sender does not shut down on sending EOF in unacknowledged mode when closure was requested")
 def c18_u2(ctx):
     f = ctx.one("C18-U2", "SendTransaction::send_pdu")
 
